@@ -71,7 +71,7 @@ pub struct C04Case {
 
 pub struct C04;
 
-const KIND_NAMES: [&str; 6] = [
+pub const KIND_NAMES: [&str; 6] = [
     "maximum_total_weight",
     "maximum_weight_per_axle",
     "maximum_length",
@@ -79,11 +79,11 @@ const KIND_NAMES: [&str; 6] = [
     "maximum_height",
     "maximum_trailer_length",
 ];
-const DIST_NAMES: [&str; 5] = ["meters", "kilometers", "miles", "inches", "feet"];
-const WEIGHT_NAMES: [&str; 3] = ["pounds", "tons", "kg"];
+pub const DIST_NAMES: [&str; 5] = ["meters", "kilometers", "miles", "inches", "feet"];
+pub const WEIGHT_NAMES: [&str; 3] = ["pounds", "tons", "kg"];
 const CLASS_NAMES: [&str; 6] = ["motorway", "trunk", "primary", "secondary", "residential", "track"];
 
-fn vehicle_value(v: &VehicleSpec, kind: u8) -> (f64, u8, bool) {
+pub fn vehicle_value(v: &VehicleSpec, kind: u8) -> (f64, u8, bool) {
     // (value, unit, is weight)
     match kind {
         0 => (v.total_weight.0, v.total_weight.1, true),
@@ -96,7 +96,7 @@ fn vehicle_value(v: &VehicleSpec, kind: u8) -> (f64, u8, bool) {
 }
 
 /// vehicle value expressed in the row's unit (reference factors)
-fn vehicle_in_row_unit(v: &VehicleSpec, row: &RowSpec) -> f64 {
+pub fn vehicle_in_row_unit(v: &VehicleSpec, row: &RowSpec) -> f64 {
     let (val, unit, is_w) = vehicle_value(v, row.kind);
     if is_w {
         conv_weight(val, WEIGHT_UNITS[unit as usize % 3], WEIGHT_UNITS[row.unit as usize % 3])
@@ -105,7 +105,7 @@ fn vehicle_in_row_unit(v: &VehicleSpec, row: &RowSpec) -> f64 {
     }
 }
 
-fn row_value(v: &VehicleSpec, row: &RowSpec) -> f64 {
+pub fn row_value(v: &VehicleSpec, row: &RowSpec) -> f64 {
     vehicle_in_row_unit(v, row) * row.ratio
 }
 
@@ -253,7 +253,7 @@ impl C04Case {
     }
 }
 
-fn vehicle_strategy() -> impl Strategy<Value = VehicleSpec> {
+pub fn vehicle_strategy() -> impl Strategy<Value = VehicleSpec> {
     let len = || ((1.0f64..30.0).prop_map(|v| (v * 8.0).round() / 8.0), 0u8..5);
     (
         len(),
